@@ -1,6 +1,10 @@
 """Bounded stand-in for the text-level part of C07 (list parsing, .ascii, .incbin with real files), real pipeline."""
 import os
 import random
+import string
+
+# every printable ASCII character a quoted text can hold verbatim (the quote itself and the line end excluded), the backslash included
+ASCII_TEXT = "".join(c for c in string.printable[:95] if c not in "'\n\r\x0b\x0c")
 import shutil
 import tempfile
 
@@ -81,7 +85,7 @@ def gen_case(rng, big):
             sep = rng.choice([", ", ",", " , "])
             stmts.append([kind, {"values": vals, "text": sep.join(lit(v, rng) for v in vals)}])
         elif kind == "ascii":
-            stmts.append(["ascii", "".join(rng.choice("abcXYZ 019_-+*/!?") for _ in range(rng.randint(0, 12)))])
+            stmts.append(["ascii", "".join(rng.choice(ASCII_TEXT) for _ in range(rng.randint(0, 12))).rstrip("\\")])
         else:
             ln = rng.choice([0, 1, 2, 0x20, 0x7FFF, 0x8000, 0x8001, 0x10010]) if big else rng.choice([0, 1, 2, 0x20, 0x1FF])
             stmts.append(["incbin", {"len": ln, "seed": rng.randint(0, 255)}])
@@ -96,8 +100,10 @@ def run(tier, seed):
     distinct = set()
     samples = []
     history = []
+    fixed = [{"stmts": [["ascii", ASCII_TEXT], ["db", {"values": [1], "text": "1"}]], "start": 0x008000},  # every printable character at once (backslash, quotes, brackets, ;)
+             {"stmts": [["ascii", "C:\\SNES\\rom.sfc"], ["ascii", "a\\b\\\\c"]], "start": 0x00FFF0}]
     for i in range(n):
-        case = gen_case(rng, big=(i % 5 == 0))
+        case = fixed[i] if i < len(fixed) else gen_case(rng, big=(i % 5 == 0))
         case["last"] = i == n - 1
         distinct.add(str(case))
         f = run_case(case)
@@ -107,7 +113,7 @@ def run(tier, seed):
             failures.append({"ident": "bounded/data-directives", "script": "b_C07.py", "payload": dict(case, history=[h for h in history if any(k == "incbin" for k, _ in h["stmts"])][-6:]), "observed": f})
         history.append(case)
     return {"evaluations": n, "distinct_nontrivial": len(distinct),
-            "rule": "seeded programs of 1-4 data directives (.db/.dw/.dl/.pointer lists with boundary, negative and over-wide values in several "
+            "rule": "two fixed .ascii programs holding every printable character, then seeded programs of 1-4 data directives (.db/.dw/.dl/.pointer lists with boundary, negative and over-wide values in several "
                     "literal styles and separators, .ascii, .incbin of real temp files incl. lengths crossing bank ends) at window-edge start "
                     "addresses; output bytes, first offset, trailing label and incbin symbols compared with the statement's definition",
             "samples": samples, "failures": failures}
